@@ -16,6 +16,8 @@
 #include <fcntl.h>
 #include <errno.h>
 #include <sys/wait.h>
+#include <dirent.h>
+#include <event2/thread.h>
 #include "mjson.h"
 #include "vclock.h"
 #include "lockrec.h"
@@ -50,6 +52,45 @@ static struct wrec watch[16];
 static int nwatch;
 
 static int exec_op(jval *op, int incb);
+
+/* kernel registrations of every epoll instance this process holds: "tfd:events;" sorted (C11: the parent's
+ * registrations must not change because a forked child re-initialised its copy of the base) */
+static int cmp_str(const void *a, const void *b) { return strcmp(*(char *const *)a, *(char *const *)b); }
+static char *epoll_snapshot(void)
+{
+	DIR *d = opendir("/proc/self/fd");
+	struct dirent *de;
+	char *items[512]; int n = 0, i;
+	char *out; size_t len = 1;
+	if (!d) return strdup("?");
+	while ((de = readdir(d)) && n < 500) {
+		char path[64], link[64], line[256]; ssize_t l; FILE *f;
+		if (de->d_name[0] == '.') continue;
+		snprintf(path, sizeof path, "/proc/self/fd/%s", de->d_name);
+		l = readlink(path, link, sizeof link - 1);
+		if (l <= 0) continue;
+		link[l] = 0;
+		if (!strstr(link, "eventpoll")) continue;
+		snprintf(path, sizeof path, "/proc/self/fdinfo/%s", de->d_name);
+		f = fopen(path, "r");
+		if (!f) continue;
+		while (fgets(line, sizeof line, f)) {
+			int tfd; unsigned ev;
+			if (sscanf(line, "tfd: %d events: %x", &tfd, &ev) == 2 && n < 500) {
+				char b[64]; snprintf(b, sizeof b, "%d:%x;", tfd, ev);
+				items[n++] = strdup(b);
+			}
+		}
+		fclose(f);
+	}
+	closedir(d);
+	qsort(items, n, sizeof items[0], cmp_str);
+	for (i = 0; i < n; i++) len += strlen(items[i]);
+	out = malloc(len); out[0] = 0;
+	for (i = 0; i < n; i++) { strcat(out, items[i]); free(items[i]); }
+	return out;
+}
+
 #define NDMAX 64
 static struct event_callback dcb[NDMAX];
 static int nd;
@@ -480,6 +521,7 @@ static void run_scenario(jval *sc)
 			/* C11: the child re-initialises the base and runs the rest of the scenario first
 			 * (its observations come back through a pipe); then the parent continues. */
 			int pp[2]; pid_t pid; char *cbuf = NULL; size_t clen = 0, ccap = 0; ssize_t n; int st;
+			char *snap0 = epoll_snapshot(), *snap1;
 			if (pipe(pp) < 0) { perror("pipe"); exit(3); }
 			fflush(NULL);
 			pid = fork();
@@ -521,7 +563,11 @@ static void run_scenario(jval *sc)
 			free(cbuf);
 			/* undo what the child did to the pipes we share with it */
 			{ int e; for (e = 1; e <= 2; e++) { char b[64], c = 'x'; while (read(pipes[e][0], b, sizeof b) > 0) ; if (fed[e]) { if (write(pipes[e][1], &c, 1) != 1) perror("write"); } } }
-			r = 0;
+			/* r = 0 iff the parent's kernel registrations are what they were before the fork */
+			snap1 = epoll_snapshot();
+			r = strcmp(snap0, snap1) ? -5 : 0;
+			if (r) fprintf(stderr, "parent epoll registrations changed: before=%s after=%s\n", snap0, snap1);
+			free(snap0); free(snap1);
 			if (k) fputc(',', out);
 			lockrec_api_enter("observe");
 			print_obs(r, 0);
@@ -564,6 +610,7 @@ int main(int argc, char **argv)
 	event_set_log_callback(quiet_log);
 	event_set_mem_functions(af_malloc, af_realloc, af_free);
 	lockrec_install();
+	if (getenv("VERIF_THREADS")) evthread_use_pthreads();   /* the base then owns a wake-up (notify) fd */
 	signal(SIGPIPE, SIG_IGN);
 	while ((line = j_readline(stdin))) {
 		if (line[0]) {
